@@ -135,6 +135,14 @@ func (t *TableDef) install(srv *simdb.Server, schema string) error {
 		}
 		cols = append(cols, simdb.NewColumn(c.Name, c.Type, opts...))
 	}
+	for _, p := range t.PK {
+		if t.col(p) == nil {
+			return fmt.Errorf("primary key column %s is not a column", p)
+		}
+	}
+	if len(t.PK) == 0 || len(cols) == 0 {
+		return fmt.Errorf("table needs columns and a primary key")
+	}
 	srv.CreateTable(schema, t.Name, cols, t.PK, nil)
 	return t.load(srv, schema)
 }
